@@ -40,10 +40,13 @@ def enumerate_paths(B, start=0, stops=None, max_paths=4096, allow_loops=False):
     return out
 
 
-def describe_origin(B, x, restrict=None):
-    """canonical, position-free description of where a value comes from (optionally path-restricted)"""
+def describe_origin(B, x, restrict=None, discr=False):
+    """canonical, position-free description of where a value comes from (optionally path-restricted). discr: only the variant of the
+    value matters (the Some-ness of `opt.map(f)` is that of `opt`, whatever f returns)"""
     parts = []
-    for o in sorted(B.origins(x, restrict=restrict), key=str):
+    for o in sorted(B.origins(x, restrict=restrict, path0=("<discr>",) if discr else ()), key=str):
+        if discr:
+            o = tuple(tuple(y for y in f if y != "<discr>") if isinstance(f, tuple) else f for f in o)
         if o[0] == "param":
             parts.append("param:%s%s" % (o[1], "".join("." + f for f in o[2])))
         elif o[0] == "const":
@@ -123,7 +126,7 @@ def atom(B, F, sb, label, restrict=None):
                 out = "otherwise"
         else:
             out = names[label] if names and label < len(names) else str(label)
-        return ("discr(%s)" % D(e[1]), out)
+        return ("discr(%s)" % describe_origin(B, e[1], restrict, discr=True), out)
     if e[0] == "call":
         callee = q.base_name(e[1])
         args = [D(a) for a in e[2]]
@@ -163,20 +166,28 @@ def path_atoms(B, F, path):
 
 
 def returned_variant(B, path):
-    """variant/aggregate head last assigned to _0 along the path"""
-    last = None
+    """variant/aggregate head last assigned to _0 along the path; a plain local-to-local move (`_0 = move _7`, as left behind by an
+    inlined helper's return) hands on what that local last received on this path"""
+    vals = {}
     for b, _ in path:
         for s in B.blocks[b]["stmts"]:
-            if s["k"] == "assign" and s["lhs"]["l"] == 0 and not s["lhs"]["p"]:
+            if s["k"] == "assign" and not s["lhs"]["p"]:
                 rv = s["rv"]
+                l = s["lhs"]["l"]
                 if rv["k"] == "agg":
-                    last = rv.get("variant") or rv.get("adt") or rv["ak"]
+                    vals[l] = rv.get("variant") or rv.get("adt") or rv["ak"]
                 elif rv["k"] == "use":
-                    last = ("use", rv["o"])
+                    o = rv["o"]
+                    if o["k"] in ("copy", "move") and not o["p"]["p"] and o["p"]["l"] in vals:
+                        vals[l] = vals[o["p"]["l"]]
+                    else:
+                        vals[l] = ("use", o)
+                else:
+                    vals.pop(l, None)
         t = B.blocks[b]["term"]
-        if t["k"] == "call" and t["dest"]["l"] == 0 and not t["dest"]["p"]:
-            last = ("call", q.base_name(mir.callee_of(t)[1]), b)
-    return last
+        if t["k"] == "call" and not t["dest"]["p"]:
+            vals[t["dest"]["l"]] = ("call", q.base_name(mir.callee_of(t)[1]), b)
+    return vals.get(0)
 
 
 # ----------------------------------------------------------------------------------------
@@ -216,11 +227,28 @@ def _comb_of(B, sb, restrict):
     if e[0] == "call":
         callee, blk = e[1], e[3]
     elif e[0] == "op" and e[1]["k"] in ("copy", "move"):
-        org = B.origins(e[1], restrict=restrict)
-        if len(org) == 1:
-            o = next(iter(org))
-            if o[0] == "call" and not o[3]:
-                callee, blk = o[1], o[2]
+        # the tested value is (a copy / a tuple field of a tuple built from) the result of one call
+        o, hops = e[1], 0
+        while o is not None and o["k"] in ("copy", "move") and hops < 8:
+            hops += 1
+            pl = o["p"]
+            d = B.single_def(pl["l"])
+            if d is None:
+                break
+            if d[2] == "call" and not pl["p"]:
+                w_, r_ = mir.callee_of(d[3])
+                callee, blk = r_ or w_, d[0]
+                break
+            if d[2] != "assign":
+                break
+            rv = d[3]["rv"]
+            if rv["k"] == "use" and not pl["p"]:
+                o = rv["o"]
+            elif rv["k"] == "agg" and rv["ak"] == "tuple" and len(pl["p"]) == 1 and isinstance(pl["p"][0], dict) and "f" in pl["p"][0] \
+                    and pl["p"][0]["f"] < len(rv["ops"]):
+                o = rv["ops"][pl["p"][0]["f"]]
+            else:
+                break
     if callee is None:
         return None
     for k in COMB:
@@ -381,6 +409,19 @@ def decision_rows(F, fid, depth=2, _memo=None):
     B = mir.Body(fn, F)
     rows = []
     for p, atoms in ((p, a) for p in enumerate_paths(B, allow_loops=True) for a in path_atom_alternatives(B, F, p)):
+        # a branch on a constant (a helper's flag parameter after the helper was analysed in place) is decided
+        kept, feasible = [], True
+        for d_, v_ in atoms:
+            c_ = _const_truth(d_)
+            if c_ is not None and isinstance(v_, bool):
+                if v_ != c_:
+                    feasible = False
+                    break
+                continue
+            kept.append((d_, v_))
+        if not feasible:
+            continue
+        atoms = kept
         ret = returned_variant(B, p)
         if isinstance(ret, tuple) and ret[0] == "call" and depth > 0:
             t = B.blocks[ret[2]]["term"]
